@@ -59,7 +59,7 @@ func main() {
 			modes := []string{"direct", "direct", "direct", "proxy", "proxy", "proxy", "httpsproxy", "noproxy", "proxyname", "allow"}
 			n := 70
 			if tier == "thorough" {
-				n = 6000
+				n = 4000
 				modes = append(modes, "direct", "proxy", "direct", "proxy", "httpsproxy", "noproxy")
 			}
 			var bs []kit.Batch
@@ -145,7 +145,7 @@ func genTarget(rng *rand.Rand, idx int, tag string) target {
 		return pick(rng, internal4)
 	}
 	pub := func() string {
-		if rng.Intn(4) == 0 {
+		if rng.Intn(8) == 0 { // rarer: a connect() to a global IPv6 address hangs in the sandbox until the case's deadline
 			return pick(rng, public6)
 		}
 		return pick(rng, public4)
@@ -404,6 +404,12 @@ func run(b kit.Batch, r *kit.R) {
 	cmd.Env = append(os.Environ(), "C38_WORKER=1", "C38_CASES="+casesFile, "C38_OUT="+outFile, "C38_MODE="+p.Mode)
 	cmd.Stdout, cmd.Stderr = os.Stderr, os.Stderr
 	if err := cmd.Run(); err != nil {
+		if d, rerr := os.ReadFile(outFile); rerr != nil || !strings.Contains(string(d), `"hello"`) {
+			// strace could not start or attach (no ptrace permission): nothing was
+			// observed, the MustObserve counters make the run inconclusive
+			fmt.Fprintf(os.Stderr, "C38: worker did not start under strace: %v\n", err)
+			return
+		}
 		panic(fmt.Sprintf("harness: worker under strace failed: %v", err))
 	}
 
